@@ -17,7 +17,7 @@ import tempfile
 
 from hypothesis import strategies as st
 
-from vlib import refezsp, values, vloop
+from vlib import cfg, refezsp, values, vloop
 from vlib.run import ROOT, HarnessError, Result
 from props.c07 import FakeGw, _same, all_pairs
 
@@ -222,7 +222,7 @@ def check(plan) -> Result:
             if not (answers_pending and name == "invalidCommand" and decoded is not None):
                 r.bad("C08:pending-invalid-command-without-frame", f"{plan}")
         elif kind == "TimeoutError":
-            if dt < 10 - 1e-6:
+            if dt < cfg.cmd_timeout() - 1e-6:
                 r.bad("C08:pending-timeout-early", f"{plan}: after {dt}")
             if answers_pending and decoded is not None and ex[1] == pid and not pend.get("state"):
                 r.bad("C08:valid-reply-ignored", f"{plan}")
